@@ -131,48 +131,7 @@ func runC03(r *Report) {
 			r.Bad(rof, key, fn.Pos(), fmt.Sprintf("index entry fields do not come from this write (offset ok=%v, checksum ok=%v, key ok=%v): lookups return another key's value", okO, okC, okK))
 		}
 	}
-	// loaders map the index record into their entries field by field
-	const rl = "loader-mapping"
-	r.Rule(rl, 3, "every index loader builds its entries from (Key, ValueOffset → Offset, Checksum → Checksum) of the decoded index record")
-	for _, fn := range p.FuncsOfPkg("sstables") {
-		if fn.Name() != "Load" || fn.Signature.Recv() == nil {
-			continue
-		}
-		okOff, okCk, n, bad := false, false, 0, false
-		eachInstr(fn, func(s Site) {
-			st, ok := s.Instr.(*ssa.Store)
-			if !ok {
-				return
-			}
-			t, f, _, ok := fieldAddrName(st.Addr)
-			if !ok || t != "sstables.IndexVal" {
-				return
-			}
-			_, src, _, ok2 := loadOfField(st.Val)
-			if !ok2 {
-				return
-			}
-			n++
-			switch {
-			case f == "Offset" && src == "ValueOffset":
-				okOff = true
-			case f == "Checksum" && src == "Checksum":
-				okCk = true
-			default:
-				bad = true
-			}
-		})
-		if n == 0 {
-			continue // loader that does not build IndexVal itself (disk index)
-		}
-		r.Saw(fn)
-		key := rl + "/" + FuncKey(fn)
-		if okOff && okCk && !bad && n%2 == 0 {
-			r.OK(rl, key, fn.Pos(), "IndexVal{Offset: ValueOffset, Checksum: Checksum}")
-		} else {
-			r.Bad(rl, key, fn.Pos(), "the loader does not map ValueOffset→Offset and Checksum→Checksum")
-		}
-	}
+	ruleLoaderMapping(r)
 
 	ruleBoundsSign(r)
 	ruleSkiplistShape(r)
@@ -189,6 +148,8 @@ func runC03(r *Report) {
 	ruleCompressor(r)
 	rulePoolPutOnce(r)
 	ruleBloomEveryKey(r)
+	ruleBloomSizeValidated(r)
+	ruleCreateTruncates(r)
 }
 
 // compareOperands: for a Compare-like call, which argument position is which parameter/field?
@@ -1015,6 +976,65 @@ func ruleMapLookupVerified(r *Report) {
 				}
 			}
 		}
+		// … and the comparison stands between the hit and its use: with the "stored key is the requested key" edges
+		// removed, no return that hands out the slot's entry is reachable from the lookup
+		if cmp {
+			removed := map[Edge]bool{}
+			for _, b := range liveBlocks(fn) {
+				cnd, tS, fS, tE, fE, ok := effCond(b)
+				if !ok {
+					continue
+				}
+				isKeyCmp := func(c *ssa.Call) bool {
+					if c == nil || c.Call.StaticCallee() == nil {
+						return false
+					}
+					fk := FuncKey(c.Call.StaticCallee())
+					if fk != "bytes.Equal" && fk != "bytes.Compare" {
+						return false
+					}
+					for _, a := range c.Call.Args {
+						if po := paramOrigin(a); po != nil && po.Name() == "key" {
+							return true
+						}
+					}
+					return false
+				}
+				if c, isC := cnd.(*ssa.Call); isC && isKeyCmp(c) && FuncKey(c.Call.StaticCallee()) == "bytes.Equal" && tE {
+					removed[Edge{b, tS}] = true
+				}
+				if bo, isB := cnd.(*ssa.BinOp); isB {
+					if c, isC := bo.X.(*ssa.Call); isC && isKeyCmp(c) {
+						if z, isZ := constInt(bo.Y); isZ && z == 0 {
+							if bo.Op == token.EQL && tE {
+								removed[Edge{b, tS}] = true
+							}
+							if bo.Op == token.NEQ && fE {
+								removed[Edge{b, fS}] = true
+							}
+						}
+					}
+				}
+			}
+			for _, l := range lookups {
+				var pos ssa.Value
+				for _, rf := range *l.Instr.(ssa.Value).Referrers() {
+					if ex, ok := rf.(*ssa.Extract); ok && ex.Index == 0 {
+						pos = ex
+					}
+				}
+				if pos == nil {
+					pos = l.Instr.(ssa.Value)
+				}
+				reach := reachFrom(l.Block, removed)
+				for _, rs := range nilReturns(fn) {
+					ret := rs.Instr.(*ssa.Return)
+					if reach[rs.Block] && len(ret.Results) > 0 && valueDependsOn(ret.Results[0], func(x ssa.Value) bool { return x == pos }) {
+						cmp = false
+					}
+				}
+			}
+		}
 		// a probe the mapper cannot map (longer than its width: MapBytes panics) is absent, not a reason to panic
 		if k == "sstables.MapKeyIndex.Get" {
 			gkey := rule + "/" + k + "/probe-length-guarded"
@@ -1199,4 +1219,96 @@ func reachableAssuming(fn *ssa.Function, x ssa.Value, val int64, target *ssa.Bas
 		return true
 	}
 	return walk(fn.Blocks[0], map[ssa.Value]bool{}, 0)
+}
+
+// R-loader-mapping (C03, C08)
+func ruleLoaderMapping(r *Report) {
+	p := r.P
+	// loaders map the index record into their entries field by field
+	const rl = "loader-mapping"
+	r.Rule(rl, 3, "every index loader builds its entries from (Key, ValueOffset → Offset, Checksum → Checksum) of the decoded index record")
+	for _, fn := range p.FuncsOfPkg("sstables") {
+		if fn.Name() != "Load" || fn.Signature.Recv() == nil {
+			continue
+		}
+		okOff, okCk, n, bad := false, false, 0, false
+		eachInstr(fn, func(s Site) {
+			st, ok := s.Instr.(*ssa.Store)
+			if !ok {
+				return
+			}
+			t, f, _, ok := fieldAddrName(st.Addr)
+			if !ok || t != "sstables.IndexVal" {
+				return
+			}
+			_, src, _, ok2 := loadOfField(st.Val)
+			if !ok2 {
+				return
+			}
+			n++
+			switch {
+			case f == "Offset" && src == "ValueOffset":
+				okOff = true
+			case f == "Checksum" && src == "Checksum":
+				okCk = true
+			default:
+				bad = true
+			}
+		})
+		if n == 0 {
+			continue // loader that does not build IndexVal itself (disk index)
+		}
+		r.Saw(fn)
+		key := rl + "/" + FuncKey(fn)
+		if okOff && okCk && !bad && n%2 == 0 {
+			r.OK(rl, key, fn.Pos(), "IndexVal{Offset: ValueOffset, Checksum: Checksum}")
+		} else {
+			r.Bad(rl, key, fn.Pos(), "the loader does not map ValueOffset→Offset and Checksum→Checksum")
+		}
+		// every record that was read becomes an entry: from the success edge of the read, the loop does not come back to
+		// the read without having built one (no filter — a table's full scan pairs the n-th index entry with the n-th
+		// data record, one entry less shifts every later value to the wrong key)
+		{
+			ekey := rl + "/" + FuncKey(fn) + "/every-record-loaded"
+			var reads []Site
+			eachInstr(fn, func(s Site) {
+				if c, ok := s.Instr.(*ssa.Call); ok && c.Call.IsInvoke() && c.Call.Method.Name() == "ReadNext" {
+					reads = append(reads, s)
+				}
+			})
+			builds := map[*ssa.BasicBlock]bool{}
+			eachInstr(fn, func(s Site) {
+				if st, ok := s.Instr.(*ssa.Store); ok {
+					if t, _, _, isF := fieldAddrName(st.Addr); isF && t == "sstables.IndexVal" {
+						builds[s.Block] = true
+					}
+				}
+			})
+			if len(reads) != 1 {
+				r.Unk(rl, ekey, fn.Pos(), "the loader's read loop was not recognised")
+			} else {
+				removed := map[Edge]bool{}
+				for b := range builds {
+					for _, su := range b.Succs {
+						removed[Edge{b, su}] = true
+					}
+				}
+				succ, _ := errorEdges(reads[0])
+				skips := false
+				for _, e := range succ {
+					if !builds[e.To] && reachFrom(e.To, removed)[reads[0].Block] {
+						skips = true
+					}
+				}
+				if len(succ) == 0 {
+					r.Unk(rl, ekey, reads[0].Pos(), "the read's error is not tested")
+				} else if skips {
+					r.Bad(rl, ekey, reads[0].Pos(), "a record that was read successfully can be skipped (the loop returns to the read without building an entry): with the empty key in a table — it decodes to nil, the same as 'no previous key' — the full scan is one index entry short and attributes every value to the next key; Get and Contains miss the skipped key")
+				} else {
+					r.OK(rl, ekey, reads[0].Pos(), "every successfully read record becomes an entry")
+				}
+			}
+		}
+	}
+
 }
